@@ -169,16 +169,6 @@ pub fn c14_exp_higher_correction_is_third_derivative() {
 pub fn c14_exp_higher_correction_basis() {
     exp_higher_correction::<13>(true);
 }
-#[kani::proof]
-#[kani::unwind(14)]
-pub fn c14_exp_higher_correction_is_third_derivative_p7() {
-    exp_higher_correction::<7>(false);
-}
-#[kani::proof]
-#[kani::unwind(14)]
-pub fn c14_exp_higher_correction_is_third_derivative_p11() {
-    exp_higher_correction::<11>(false);
-}
 
 fn any_point_q<const Q: u16>() -> [Fp<Q>; 3] {
     [Fp::<Q>::any_nonzero(), Fp::<Q>::any(), Fp::<Q>::any_nonzero()]
@@ -298,15 +288,66 @@ pub fn c14_pow_higher_correction_is_third_derivative() {
 pub fn c14_pow_higher_correction_basis() {
     pow_higher_correction::<13>(true);
 }
+
+// ------------------------------------------------------------------------------------------
+// higher_correction, compositionally: (1) the explicit 3x3 Cholesky factor + solve IS a linear solver
+// (lemma, real code, GF(13)); (2) higher_correction with those two routines replaced by their
+// specification (hook bodies `spec_factor` / `spec_solve`: Cramer's rule, no square roots).  The
+// monolithic harnesses (three nested nondeterministic square roots inside a degree-10 polynomial
+// identity) did not finish in an hour; they stay registered in the thorough tier.
+// ------------------------------------------------------------------------------------------
+use clarabel::algebra::densesym3x3::verif_hooks_d3 as d3;
+
+/// lemma: factor succeeds => the returned x solves H x = b; factor fails => a leading principal minor
+/// vanishes (in the field `t <= 0` is `t == 0`)
 #[kani::proof]
-#[kani::unwind(14)]
-pub fn c14_pow_higher_correction_is_third_derivative_p7() {
-    pow_higher_correction::<7>(false);
+#[kani::unwind(8)]
+pub fn c14_chol3_is_a_linear_solver() {
+    let h: [F; 6] = [F::any(), F::any(), F::any(), F::any(), F::any(), F::any()];
+    let b = [F::any(), F::any(), F::any()];
+    let m = unpack(&h);
+    let m2 = m[0][0] * m[1][1] - m[0][1] * m[0][1];
+    let det = m[0][0] * (m[1][1] * m[2][2] - m[1][2] * m[1][2]) - m[0][1] * (m[0][1] * m[2][2] - m[1][2] * m[0][2])
+        + m[0][2] * (m[0][1] * m[1][2] - m[1][1] * m[0][2]);
+    match d3::chol3_factor_solve(h, b) {
+        Some(x) => {
+            let mut i = 0;
+            while i < 3 {
+                assert!(m[i][0] * x[0] + m[i][1] * x[1] + m[i][2] * x[2] == b[i], "cholesky_solve_returns_the_solution_of_Hx_eq_b");
+                i += 1;
+            }
+            assert!(m[0][0].0 != 0 && m2.0 != 0 && det.0 != 0, "success_implies_nonzero_leading_minors");
+            kani::cover!(x[0].0 == 3 && b[1].0 == 2 && m[0][1].0 != 0, "solved a coupled system");
+        }
+        None => {
+            assert!(m[0][0].0 == 0 || m2.0 == 0 || det.0 == 0, "failure_only_for_a_vanishing_leading_minor");
+            kani::cover!(m[0][0].0 != 0, "opt: failure at a later pivot");
+        }
+    }
 }
+
 #[kani::proof]
 #[kani::unwind(14)]
-pub fn c14_pow_higher_correction_is_third_derivative_p5() {
-    pow_higher_correction::<5>(false);
+#[kani::stub(clarabel::algebra::densesym3x3::DenseMatrixSym3::cholesky_3x3_explicit_factor, clarabel::algebra::densesym3x3::verif_hooks_d3::spec_factor)]
+#[kani::stub(clarabel::algebra::densesym3x3::DenseMatrixSym3::cholesky_3x3_explicit_solve, clarabel::algebra::densesym3x3::verif_hooks_d3::spec_solve)]
+pub fn c14_exp_higher_correction_spec() {
+    exp_higher_correction::<13>(false);
+}
+
+#[kani::proof]
+#[kani::unwind(14)]
+#[kani::stub(clarabel::algebra::densesym3x3::DenseMatrixSym3::cholesky_3x3_explicit_factor, clarabel::algebra::densesym3x3::verif_hooks_d3::spec_factor)]
+#[kani::stub(clarabel::algebra::densesym3x3::DenseMatrixSym3::cholesky_3x3_explicit_solve, clarabel::algebra::densesym3x3::verif_hooks_d3::spec_solve)]
+pub fn c14_pow_higher_correction_spec() {
+    pow_higher_correction::<13>(false);
+}
+
+#[kani::proof]
+#[kani::unwind(14)]
+#[kani::stub(clarabel::algebra::densesym3x3::DenseMatrixSym3::cholesky_3x3_explicit_factor, clarabel::algebra::densesym3x3::verif_hooks_d3::spec_factor)]
+#[kani::stub(clarabel::algebra::densesym3x3::DenseMatrixSym3::cholesky_3x3_explicit_solve, clarabel::algebra::densesym3x3::verif_hooks_d3::spec_solve)]
+pub fn c14_exp_higher_correction_spec_basis() {
+    exp_higher_correction::<13>(true);
 }
 
 /// dual scaling fallback: Hs = mu * H
